@@ -29,7 +29,7 @@ type vfRateScanner struct {
 	mu      sync.Mutex
 	times   []int
 	n       int64
-	slowN   int64         // the first slowN probes take slowFor (all workers busy: nobody asks the limiter meanwhile)
+	slowN   int64 // the first slowN probes take slowFor (all workers busy: nobody asks the limiter meanwhile)
 	slowFor time.Duration
 	hangAt  int64 // this probe alone takes hangFor (one worker: the sender is held up, demand piles up behind it)
 	hangFor time.Duration
